@@ -31,6 +31,37 @@ theorem mem_markFired {q : List Entry} {e : Nat} {en : Entry} (h : en ∈ markFi
       exact ⟨en0, hm, rfl, rfl, rfl, rfl⟩
   · exact ⟨en, h, rfl, rfl, rfl, rfl⟩
 
+theorem mem_markFired_of_mem {q : List Entry} {e : Nat} {en : Entry} (h : en ∈ q) :
+    ∃ en' ∈ markFired q e, en'.created = en.created ∧ en'.expire = en.expire := by
+  unfold markFired
+  split
+  · rename_i en0 h0
+    obtain ⟨k, hk, rfl⟩ := List.getElem_of_mem h
+    by_cases hke : k = e
+    · subst hke
+      refine ⟨{ en0 with fired := true }, ?_, ?_, ?_⟩
+      · exact List.mem_iff_getElem.2 ⟨k, by simpa using hk, by simp⟩
+      · have : q[k]? = some q[k] := List.getElem?_eq_getElem hk
+        rw [this] at h0; cases h0; rfl
+      · have : q[k]? = some q[k] := List.getElem?_eq_getElem hk
+        rw [this] at h0; cases h0; rfl
+    · refine ⟨q[k], ?_, rfl, rfl⟩
+      exact List.mem_iff_getElem.2 ⟨k, by simpa using hk, by simp [List.getElem_set, Ne.symm hke]⟩
+  · exact ⟨en, h, rfl, rfl⟩
+
+theorem spawn_hasTask {y : Sys} (p : Nat) (k : Kind) (h : HasTaskInv y) : HasTaskInv (spawn y p k) := by
+  intro w
+  have hw := h w
+  unfold spawn
+  split <;> try exact hw
+  all_goals (repeat' split)
+  all_goals (first
+    | (simpa using hw)
+    | (intro hs
+       obtain ⟨en, hm, e1, e2⟩ := hw (by simpa using hs)
+       obtain ⟨en', hm', f1, f2⟩ := mem_markFired_of_mem (e := _) hm
+       exact ⟨en', by simpa using hm', by rw [f1, e1], by rw [f2, e2]⟩))
+
 theorem spawn_mutex {y : Sys} (p : Nat) (k : Kind) (h : MutexInv y) : MutexInv (spawn y p k) := by
   intro q
   have hq := h q
@@ -142,6 +173,17 @@ theorem spawn_sched {y : Sys} (p : Nat) (k : Kind) (h : SchedInv y) : SchedInv (
        obtain ⟨en', hm, e1, e2, e3, e4⟩ := mem_markFired hen
        rw [e1, e2, e3, e4]; exact hq en' hm))
 
+theorem spawn_notify {y : Sys} (p : Nat) (k : Kind) (h : NotifyInv y) : NotifyInv (spawn y p k) := by
+  intro q m
+  have hq := h q m
+  unfold spawn
+  split <;> try exact hq
+  all_goals (repeat' split)
+  all_goals (by_cases hqp : q = p)
+  all_goals (first
+    | (subst hqp; simp_all [notifyMark]; done)
+    | (simp_all [notifyMark]; done))
+
 /-- All invariants together. -/
 structure Inv (y : Sys) : Prop where
   mutex : MutexInv y
@@ -153,6 +195,8 @@ structure Inv (y : Sys) : Prop where
   pair : PairInv y
   queue : QueueInv y
   sched : SchedInv y
+  notify : NotifyInv y
+  hasTask : HasTaskInv y
 
 theorem inv_init (r J : Frac) : Inv (Sys.init r J) where
   mutex := by intro q; simp [Sys.init, holds]
@@ -164,6 +208,8 @@ theorem inv_init (r J : Frac) : Inv (Sys.init r J) where
   pair := by constructor <;> simp [Sys.init, procPaired]
   queue := by simp [QueueInv, Sys.init]
   sched := by constructor <;> simp [Sys.init, procSched]
+  notify := by intro q m; simp [Sys.init, notifyMark]
+  hasTask := by intro w; simp [Sys.init]
 
 theorem inv_step {y : Sys} (p : Nat) (i : Input) (h : Inv y) : Inv (step y p i) where
   mutex := step_mutex p i h.mutex
@@ -175,6 +221,8 @@ theorem inv_step {y : Sys} (p : Nat) (i : Input) (h : Inv y) : Inv (step y p i) 
   pair := step_pair p i h.pair
   queue := step_queue p i h.queue
   sched := step_sched p i h.sched
+  notify := step_notify p i h.notify
+  hasTask := step_hasTask p i h.hasTask
 
 theorem inv_spawn {y : Sys} (p : Nat) (k : Kind) (h : Inv y) : Inv (spawn y p k) where
   mutex := spawn_mutex p k h.mutex
@@ -186,6 +234,8 @@ theorem inv_spawn {y : Sys} (p : Nat) (k : Kind) (h : Inv y) : Inv (spawn y p k)
   pair := spawn_pair p k h.pair
   queue := spawn_queue p k h.queue
   sched := spawn_sched p k h.sched
+  notify := spawn_notify p k h.notify
+  hasTask := spawn_hasTask p k h.hasTask
 
 theorem inv_apply {y : Sys} (a : Act) (h : Inv y) : Inv (apply y a) := by
   cases a with
